@@ -77,6 +77,12 @@ impl MetadataSpec {
         mask: Option<T>,
         ordering: Ordering,
     ) -> T {
+        #[cfg(mmtk_verif)]
+        if verif_steps::enter() {
+            let r = self.load_atomic::<VM, T>(object, mask, ordering);
+            verif_steps::leave(self, 0, object, 0, 0, r.to_u64().unwrap(), true, mask.is_some());
+            return r;
+        }
         match self {
             MetadataSpec::OnSide(metadata_spec) => {
                 metadata_spec.load_atomic(object.to_raw_address(), ordering)
@@ -128,6 +134,12 @@ impl MetadataSpec {
         mask: Option<T>,
         ordering: Ordering,
     ) {
+        #[cfg(mmtk_verif)]
+        if verif_steps::enter() {
+            self.store_atomic::<VM, T>(object, val, mask, ordering);
+            verif_steps::leave(self, 1, object, val.to_u64().unwrap(), 0, 0, true, mask.is_some());
+            return;
+        }
         match self {
             MetadataSpec::OnSide(metadata_spec) => {
                 metadata_spec.store_atomic(object.to_raw_address(), val, ordering);
@@ -163,6 +175,32 @@ impl MetadataSpec {
         success_order: Ordering,
         failure_order: Ordering,
     ) -> std::result::Result<T, T> {
+        #[cfg(mmtk_verif)]
+        if verif_steps::enter() {
+            let r = self.compare_exchange_metadata::<VM, T>(
+                object,
+                old_val,
+                new_val,
+                mask,
+                success_order,
+                failure_order,
+            );
+            let (ok, v) = match r {
+                Ok(v) => (true, v),
+                Err(v) => (false, v),
+            };
+            verif_steps::leave(
+                self,
+                2,
+                object,
+                old_val.to_u64().unwrap(),
+                new_val.to_u64().unwrap(),
+                v.to_u64().unwrap(),
+                ok,
+                mask.is_some(),
+            );
+            return r;
+        }
         match self {
             MetadataSpec::OnSide(metadata_spec) => metadata_spec.compare_exchange_atomic(
                 object.to_raw_address(),
@@ -338,4 +376,109 @@ pub(crate) fn extract_side_metadata(specs: &[MetadataSpec]) -> Vec<SideMetadataS
     }
 
     side_specs
+}
+
+/// Verification hook (only with `--cfg mmtk_verif`): a per-thread recorder of the atomic metadata
+/// operations (`load_atomic`, `store_atomic`, `compare_exchange_metadata` of [`MetadataSpec`]) a
+/// thread performs.  Nothing is recorded unless the thread called [`verif_steps::start`]; while
+/// recording, every operation first passes `crate::verif::sync_point("meta.op", kind)` (schedule
+/// perturbation), then runs the unmodified operation, then appends one [`verif_steps::Step`].
+#[cfg(mmtk_verif)]
+pub mod verif_steps {
+    use super::MetadataSpec;
+    use crate::util::ObjectReference;
+    use std::cell::{Cell, RefCell};
+
+    /// One recorded operation.
+    #[derive(Clone, Copy, Debug, PartialEq, Eq)]
+    pub struct Step {
+        /// 0 = load_atomic, 1 = store_atomic, 2 = compare_exchange_metadata; values >= 16 are
+        /// defined by the harness (see [`push`]).
+        pub op: u8,
+        /// side metadata (true) or in-header (false)
+        pub side: bool,
+        /// side: the spec's `offset`; header: the spec's `bit_offset`
+        pub loc: isize,
+        /// width of the field in bits
+        pub bits: usize,
+        /// raw address of the object reference the operation was applied to
+        pub obj: usize,
+        /// store: the stored value; compare-exchange: the expected old value
+        pub a: u64,
+        /// compare-exchange: the new value
+        pub b: u64,
+        /// load: the loaded value; compare-exchange: the value inside `Ok(..)`/`Err(..)`
+        pub r: u64,
+        /// compare-exchange: `is_ok()`
+        pub ok: bool,
+        /// the call had `Some(mask)`
+        pub masked: bool,
+    }
+
+    thread_local! {
+        static ON: Cell<bool> = const { Cell::new(false) };
+        static INSIDE: Cell<bool> = const { Cell::new(false) };
+        static LOG: RefCell<Vec<Step>> = const { RefCell::new(Vec::new()) };
+    }
+
+    /// Start recording on the calling thread (clears its log).
+    pub fn start() {
+        LOG.with(|l| l.borrow_mut().clear());
+        INSIDE.with(|c| c.set(false));
+        ON.with(|c| c.set(true));
+    }
+
+    /// Stop recording on the calling thread and return its log.
+    pub fn stop() -> Vec<Step> {
+        ON.with(|c| c.set(false));
+        LOG.with(|l| std::mem::take(&mut *l.borrow_mut()))
+    }
+
+    /// Append a harness-defined step (op >= 16) to the calling thread's log, if recording.
+    pub fn push(step: Step) {
+        if ON.with(|c| c.get()) {
+            LOG.with(|l| l.borrow_mut().push(step));
+        }
+    }
+
+    pub(super) fn enter() -> bool {
+        if ON.with(|c| c.get()) && !INSIDE.with(|c| c.get()) {
+            INSIDE.with(|c| c.set(true));
+            crate::verif::sync_point("meta.op", 0);
+            true
+        } else {
+            false
+        }
+    }
+
+    #[allow(clippy::too_many_arguments)]
+    pub(super) fn leave(
+        spec: &MetadataSpec,
+        op: u8,
+        object: ObjectReference,
+        a: u64,
+        b: u64,
+        r: u64,
+        ok: bool,
+        masked: bool,
+    ) {
+        INSIDE.with(|c| c.set(false));
+        let (side, loc, bits) = match spec {
+            MetadataSpec::OnSide(s) => (true, s.offset as isize, 1usize << s.log_num_of_bits),
+            MetadataSpec::InHeader(h) => (false, h.bit_offset, h.num_of_bits),
+        };
+        let step = Step {
+            op,
+            side,
+            loc,
+            bits,
+            obj: object.to_raw_address().as_usize(),
+            a,
+            b,
+            r,
+            ok,
+            masked,
+        };
+        LOG.with(|l| l.borrow_mut().push(step));
+    }
 }
